@@ -292,6 +292,14 @@ func runC16(c *Ctx) error {
 			cf.local["to"] = "L3" // this call's function beats the built-in
 			feat = append(feat, "local-beats-builtin")
 		}
+		if r.Chance(18) {
+			cf.local["required"] = "L4" // a per-call function under the name of an extension rule replaces it for this call
+			feat = append(feat, "local-beats-required")
+		}
+		if r.Chance(12) {
+			cf.local["exist"] = "L5"
+			feat = append(feat, "local-beats-exist")
+		}
 		call.Local = cf.local
 		// the input: the outermost struct, or a pointer to it, or (no outermost struct) a slice of it
 		top := wtop()
